@@ -78,7 +78,9 @@ Definition texp (r : reg) (now : Z) : bool := is_some (r_pending r) && (r_ptimeo
 Lemma expired_texp : forall n g s now amb due, Inv n g s ->
   expired g (Tick now amb due) = texp (s_reg s) now.
 Proof.
-  intros n g s now amb due I. unfold expired, texp. pose proof (inv_out _ _ _ I) as H.
+  intros n g s now amb due I. unfold expired, texp.
+  change TEXT_TIMEOUT_MS with REG2_WAIT_MS.   (* the code's constant is the 4 s of the text *)
+  pose proof (inv_out _ _ _ I) as H.
   destruct (g_out g) as [[j t]|].
   - destruct H as (Hp & Ht & _). rewrite Hp, Ht. reflexivity.
   - rewrite H. reflexivity.
